@@ -4,6 +4,8 @@
 // A root prints as "<deep dump>@<getter summary>"; the format is the one of lean/Qentem/Driver/Value.lean.
 // Only the public API is used (slots through GetObject()/GetArray(), the pointee of a ValuePtr through the
 // Is*() getters).  Keys are passed in exact-size heap buffers.
+#include <new>
+#include "ledger.hpp"
 #include "common.hpp"
 #include "Value.hpp"
 #include <memory>
